@@ -57,3 +57,36 @@ func denitrSrcImpStage(c *vh.Ctx, saved []denitCase) {
 	}
 	correspondSrcImp(c, "Denitr", sic, 1e-9, 1e-12)
 }
+
+// nmoveSrcImpStage: the Lean translation of the current source of nmove (nitro.go) on the kernel states.
+func nmoveSrcImpStage(c *vh.Ctx, saved []nmoveCase) {
+	var sic []srcImpCase
+	for i := range saved {
+		if i >= c.N(1500, 20000) {
+			break
+		}
+		nc := saved[i]
+		g, l, subd := newNmoveState(&nc)
+		wdt := nc.Wdt
+		sic = append(sic, srcImpCase{Recv: map[string]interface{}{"g": g, "l": l},
+			Params: map[string]interface{}{"wdt": wdt, "subd": subd, "zeit": nmoveZeit},
+			Call:   func() { hermes.VerifNmove(wdt, subd, nmoveZeit, g, l) }, Desc: nc})
+	}
+	correspondSrcImp(c, "nmove", sic, 1e-9, 1e-12)
+}
+
+// mineralSrcImpStage: the Lean translation of the current source of mineral (nitro.go) on the kernel states.
+func mineralSrcImpStage(c *vh.Ctx, saved []mineralCase) {
+	var sic []srcImpCase
+	for i := range saved {
+		if i >= c.N(1500, 20000) {
+			break
+		}
+		mc := saved[i]
+		g, l := setupMineral(&mc)
+		gp, lp := &g, &l
+		sic = append(sic, srcImpCase{Recv: map[string]interface{}{"g": gp, "l": lp}, Params: map[string]interface{}{},
+			Call: func() { hermes.VerifMineral(gp, lp) }, Desc: mc})
+	}
+	correspondSrcImp(c, "mineral", sic, 1e-9, 1e-12)
+}
